@@ -3,6 +3,57 @@ import json, os
 HERE = os.path.dirname(os.path.dirname(os.path.abspath(__file__)))
 
 CLAIMED = {
+ 'C17': dict(
+    text='Seeded exploration with crash-point injection: twin replicas of the real wrappers run the same seeded '
+         'training/configuration schedule; the subject crashes at 1-3 seeded points (thorough: additionally every '
+         'position of sampled schedules), only torch.save(state_dict()) bytes survive, the process is rebuilt under '
+         'other process-level randomness (weights, input example), the script re-issues its configuration calls and '
+         'load_state_dict must report no missing/unexpected keys. After every later op and in a final probe (eval and '
+         'train outputs, every named cost, summary, exported network structure/weights/outputs) the subject must equal '
+         'the never-crashed reference. A clean batch is evidence, not proof.',
+    note='Trusted: torch (autograd, state_dict, save/load). Restart protocol "config is code, state is data" '
+         '(MPS temperature is deliberately not re-issued: the code registers it as a buffer). Volatile in-flight state '
+         '(pending grads, autograd graphs on sampled coefficients) is dropped on the reference at a crash too. '
+         'rtol 1e-5/atol 1e-6 for floats, exact for discrete observations.',
+    tech='deterministic simulation: twin replicas, crash/restart fault injection at seeded points, real code as oracle',
+    ref='DESIGN.md §2 C17'),
+ 'C18': dict(
+    text='Seeded exploration with observer injection: twin replicas run the same seeded schedule; the subject '
+         'additionally receives 1-5 observer calls (export, export(add_bn=False), summary, str, cost, get_cost, '
+         'cost_specification switched and back, parameter listing, state_dict), some as interrupts between the forward '
+         'pass and the cost read of one training step or between backward and optimizer step. After every base op '
+         'returned values, parameters, gradients, requires_grad and training flags must equal the observer-free '
+         'reference; the final probe reads cost and summary before any forward pass; two consecutive exports must be '
+         'structurally identical.',
+    note='Trusted: torch. The torch RNG is re-seeded before every op on both replicas (RNG consumption by an observer '
+         'is not flagged). Buffer-only differences without observable effect are counted, not flagged. An observer '
+         'that raises is caught by the simulated loop (whether export succeeds is not this property).',
+    tech='deterministic simulation: twin replicas, observer calls injected as interrupts, real code as oracle',
+    ref='DESIGN.md §2 C18'),
+ 'C11': dict(
+    text='Seeded exploration of control-call histories (train_* groups, PIT train_features/rf/dilation/discrete_cost, '
+         'SuperNet train_selection, update_softmax_options with single options and combinations, train/eval) '
+         'interleaved with training steps, aborted forwards and crash/restart, against an abstract control-state '
+         'reference model. Invariants after every op: nas/net parameters partition parameters() by identity; '
+         'requires_grad equals the reference; frozen masks are never trainable, never receive gradients and never '
+         'change value; samplers behave as the reference options say under a fixed torch seed; non-trainable groups '
+         'get no gradient. The statement asks for closure under reachability; the simulator samples and reports the '
+         'distinct abstract states/transitions reached.',
+    note='Trusted: torch, the ~60-line reference model. Frozen set = PITFrozen* instances, cross-checked against the '
+         'set derived from the architecture spec.',
+    tech='deterministic simulation: seeded call histories with abort/crash faults vs abstract control-state reference model',
+    ref='DESIGN.md §2 C11'),
+ 'C10': dict(
+    text='Seeded exploration of histories of coefficient writes (top-2 gap >= 0.05), full option updates, mode '
+         'switches, forwards, training steps, aborted forwards and crash/restart on MPS (per-layer, per-channel incl. '
+         '0-bit, shared quantizers) and SuperNet (2-8 branches). Forward hooks capture the coefficients as used in each '
+         'forward pass: probability vector; one-hot at the raw arg-max in eval mode and in hard non-Gumbel training; '
+         'one-hot under hard Gumbel; untouched when sampling is disabled. After eval forwards and at the end summary() '
+         'and export() are compared with the raw arg-max. One known finding (D7) is skipped narrowly and counted.',
+    note='Trusted: torch, forward hooks. Ties (gap < 0.05) are skipped and counted. Output equality is C02/C03, not '
+         'checked here. Option updates always pass every option (partial updates are C11).',
+    tech='deterministic simulation: seeded option/mode/coefficient histories with abort/crash faults, monitored samplers vs arg-max reference',
+    ref='DESIGN.md §2 C10'),
  'C15': dict(
     text='Seeded exploration: registrant tasks with their own program order are interleaved by a seeded scheduler '
          'while lookup tasks (direct lookups, real PIT constructions and cost reads, built-in specs re-registered '
@@ -27,12 +78,7 @@ CLAIMED = {
     ref='DESIGN.md §2 C19'),
 }
 
-PENDING = {
- 'C10': 'check under construction in this session (planned as claimed: DESIGN.md §2 C10)',
- 'C11': 'check under construction in this session (planned as claimed: DESIGN.md §2 C11)',
- 'C17': 'check under construction in this session (planned as claimed: DESIGN.md §2 C17)',
- 'C18': 'check under construction in this session (planned as claimed: DESIGN.md §2 C18)',
-}
+PENDING = {}
 
 NA = {
  'C01': 'pure function of (architecture, mask values, input): one synchronous call, no schedule, clock, fault or interleaving for a simulator to control',
